@@ -6,6 +6,7 @@ import (
 	"time"
 
 	"github.com/btcsuite/btcd/btcutil"
+	"github.com/btcsuite/btcd/btcutil/psbt"
 	"github.com/btcsuite/btcd/chaincfg/chainhash"
 	"github.com/btcsuite/btcd/wire"
 	"github.com/btcsuite/btcwallet/waddrmgr"
@@ -57,7 +58,7 @@ func (sim) Explain(prop string, st map[string]int64) string {
 	var probes []string
 	switch prop {
 	case "C09":
-		probes = []string{"probe.parked-between-commit-and-callback", "probe.same-branch-concurrent", "probe.blocked-on-newAddrMtx", "probe.dryrun-concurrent", "probe.porcupine-checked"}
+		probes = []string{"probe.parked-between-commit-and-callback", "probe.same-branch-concurrent", "probe.dryrun-derived-change", "probe.psbt-change-issued", "probe.index-consumed-by-failed-call", "probe.porcupine-checked"}
 	case "C16":
 		probes = []string{"probe.paid-last-index-of-window", "probe.spend-of-recovered-output", "probe.recovery-interrupted", "probe.recovery-interrupted-midway", "probe.lock-during-recovery",
 			"probe.recovery-locked", "probe.recovery-unlocked", "probe.batch-boundary-crossed", "probe.c16-checked"}
@@ -143,6 +144,8 @@ func genC09(r *core.Rand, p *core.Plan) {
 					p.Ops = append(p.Ops, core.Op{K: "send", T: t, A: []int64{int64(r.Range(1, 20)) * 1e5, 1, 1000, -1, 0, 0, int64(r.Intn(2))}})
 				case funded && r.Chance(1, 5):
 					p.Ops = append(p.Ops, core.Op{K: "dryrun", T: t, A: []int64{int64(r.Range(1, 20)) * 1e5, 1, 1000, -1, 0, 0}})
+				case funded && r.Chance(1, 4):
+					p.Ops = append(p.Ops, core.Op{K: "fundpsbt", T: t, A: []int64{int64(r.Intn(8)), int64(r.Range(1, 10)) * 1e5}})
 				case r.Chance(1, 8):
 					p.Ops = append(p.Ops, core.Op{K: "newaddr", T: t, A: []int64{sc, 0, 2}})
 				default:
@@ -699,6 +702,10 @@ func (rs *runState) exec(task, step int, op core.Op) {
 				x.pendingResend = append(x.pendingResend, answerClasses[int(uint64(a)%7)])
 			}
 		}
+	case "fundpsbt":
+		if x.running {
+			rs.fundpsbt(task, step, op)
+		}
 	case "join":
 		// separator between parallel sections
 	case "clock":
@@ -859,3 +866,68 @@ func (rs *runState) final() {
 }
 
 var _ = walletdb.View
+
+// fundpsbt: FundPsbt with an explicitly selected wallet input; the change
+// output it adds is a freshly issued (and committed) internal address.
+func (rs *runState) fundpsbt(task, step int, op core.Op) {
+	x := rs.x
+	env := x.env
+	coins := x.coins()
+	var keys []wire.OutPoint
+	for k, c := range coins {
+		if c.height >= 0 && !c.coinbase && c.owner.account == 0 {
+			keys = append(keys, k)
+		}
+	}
+	if len(keys) == 0 {
+		return
+	}
+	sort.Slice(keys, func(i, j int) bool {
+		if keys[i].Hash != keys[j].Hash {
+			return keys[i].Hash.String() < keys[j].Hash.String()
+		}
+		return keys[i].Index < keys[j].Index
+	})
+	c := coins[keys[int(uint64(op.Arg(0))%uint64(len(keys)))]]
+	amount := op.Arg(1)
+	if amount < 1000 {
+		amount = 1000
+	}
+	if amount > c.value/2 {
+		amount = c.value / 2
+	}
+	x.foreignN++
+	dest := foreignScript(x.foreignN)
+	pkt, err := psbt.New([]*wire.OutPoint{&c.op}, []*wire.TxOut{{Value: amount, PkScript: dest}}, 2, 0, []uint32{0xffffffff})
+	if err != nil {
+		return
+	}
+	call := simrt.Step()
+	ci, err := x.w.FundPsbt(pkt, nil, 1, 0, 2000, wallet.CoinSelectionLargest)
+	ret := simrt.Step()
+	env.Count("op.FundPsbt")
+	env.Eff()
+	if err != nil {
+		rs.errs["send"]++
+		env.Logf("%d t%d FundPsbt err=%v", step, task, err)
+		return
+	}
+	if ci < 0 || int(ci) >= len(pkt.UnsignedTx.TxOut) {
+		env.Logf("%d t%d FundPsbt ok, no change", step, task)
+		return
+	}
+	addr := addrOfScript(pkt.UnsignedTx.TxOut[ci].PkScript, x)
+	if addr == nil {
+		return
+	}
+	for _, s := range scopes {
+		if br, idx, ok := x.resolve(s, 0, addr, 400); ok {
+			rs.issues = append(rs.issues, issueRec{task: task, kind: "psbt-change", scope: s, branch: br, index: idx, addr: addr.String(), call: call, ret: ret})
+			x.record(addr, s, 0, "psbt-change")
+			env.Count("probe.psbt-change-issued")
+			env.Logf("%d t%d FundPsbt ok change=%d/%d/%d", step, task, s.Purpose, br, idx)
+			return
+		}
+	}
+	x.fail("change-not-seed-child", "FundPsbt added change output %s which is not a child of the seed", addr)
+}
